@@ -263,6 +263,16 @@ impl Group for Request1 {
                 let _ = &s;
             }
         }
+        // heads that end exactly where the reader's buffer is full (512 bytes, then doubling) or a byte or two beyond: the
+        // blank line is then split between two reads although the peer sent everything at once
+        for centre in [512usize, 1024, 2048, 4096, 8192] {
+            for total in centre - 2..=centre + 3 {
+                for pat in ["[]", "[100000]"] {
+                    v.push(format!("c07.request gen-head:{total} {pat} none 16384 100"));
+                    v.push(format!("c07.request-open gen-head:{total} {pat} none 16384 100"));
+                }
+            }
+        }
         // malformed: bounded strings over structural bytes after a valid prefix
         let alpha = [b'A', b':', b' ', b'\t', b'\r', b'\n', b'-', b'='];
         let n = if ctx.mode == Mode::Quick { 1500 } else { 60_000 };
